@@ -214,7 +214,26 @@ def c01_need(o):
     return [f"v:{o['o']['v']}", f"err:{o['o'].get('err', '-')}"]
 
 
+def c02_sig(o):
+    t = o["c"]["tok"]
+    return f"ser={t['ser']}:alg={t['alg']}:by={t['by']}:edit={t['edit']}:allowed={t['allowed']}"
+
+
+def c02_need(o):
+    return [f"rp:{o['o']['rp']['v']}:{o['o']['rp'].get('err', '-')}", f"find:{o['o']['find']}", f"at:{o['o']['at']['v']}", f"hint:{o['o']['hint']['v']}"]
+
+
 CHECKS = {
+    "C02": simple_table_check(
+        [dict(module="Signature", sub="tbl-signature", prefixes=("C02.",), sig=c02_sig, need=c02_need, label="signature / key-selection table",
+              required=["rp:accept:-", "rp:reject:signature", "rp:reject:alg", "rp:reject:parse", "rp:reject:multiple", "rp:reject:payload",
+                        "find:found", "find:none", "find:multiple", "at:accept", "hint:accept"])],
+        ["keys are real RSA-2048 / P-256 / Ed25519 keys; signatures are computed by the harness with crypto/* directly (not with go-jose), forged "
+         "variants (foreign key, HMAC keyed with the public key, alg none, empty / garbage signature, re-encoded or replaced payload, JSON "
+         "serialisations smuggling a second payload, two signatures) are built byte by byte",
+         "entry points: rp.VerifyIDToken over rp.NewRemoteKeySet (fake JWKS endpoint), op.VerifyAccessToken and op.VerifyIDTokenHint over op.OpenIDKeySet, "
+         "oidc.FindMatchingKey; JWT-profile assertions and request objects (per-client key storage) are covered by C14's table",
+         "case domain: all token deviations in <= 2 dimensions from the fitting token of every key of every key set of <= 2 keys"]),
     "C03": c03_check,
     "C01": simple_table_check(
         [dict(module="Verifier", sub="tbl-verifier", prefixes=("C01.",), sig=c01_sig, need=c01_need, label="ID-token verifier table",
